@@ -37,4 +37,16 @@ func init() {
 		},
 		Components: libComponents, QuickMS: 25000, ThoroughMS: 900000,
 	}
+	cfgs["C13"] = &propCfg{
+		ID: "C13", Engine: "lib", Race: true, Level: "exploration",
+		Rule: "case = (shared option values; 2-6 client tasks x 1-3 calls each from {Minify, Bytes, String, Reader, Writer, Match, ResponseWriter, direct package Minify with the shared option struct}; documents biased to HTML hosts whose embedded content re-enters the registry and to inputs repeated across tasks; chunking; seeded interleaving of all tasks' yield points), run on ONE registry built with -race under the race-transparent scheduler. " +
+			"Oracles: each call's bytes/error equal the sequential call with the same options; any race report; any lock wait (would-block); deep equality of the shared option structs before/after; cross-process equality of all outputs at GOMAXPROCS 1/4/16. distinct = distinct (calls, options, schedule hash); non-trivial = at least two calls were in flight at the same scheduler step.",
+		Assumptions: []string{
+			"the scheduler hands control over without any happens-before edge between tasks (fake-clock polling, //go:norace state), so the race detector reports every conflicting unsynchronised pair executed by different tasks in the serial schedule; its shadow-memory limits (history_size, 4 shadow cells per word) still apply",
+			"registration concurrent with use is never generated (outside the property)",
+			"reference = sequential plain call on a registry built from copies of the option values",
+			"AddCmd minifiers are exercised in a separate, unscheduled sub-scenario (real processes)",
+		},
+		Components: libComponents, QuickMS: 30000, ThoroughMS: 1200000, MaxFile: 16 << 10,
+	}
 }
